@@ -290,7 +290,23 @@ fn fn_ty_text(n: usize) -> String {
 /// the declarations `text` mentions (by identifier), in catalogue order
 fn prelude_for(items: &[(Vec<String>, String)], text: &str) -> String {
     let idents: std::collections::HashSet<&str> = text.split(|c: char| !(c.is_ascii_alphanumeric() || c == '_')).filter(|x| !x.is_empty()).collect();
-    items.iter().filter(|(when, _)| when.iter().all(|w| idents.contains(w.as_str()))).map(|(_, t)| t.as_str()).collect()
+    let mut out = String::new();
+    for (_, t) in items.iter().filter(|(when, _)| when.iter().all(|w| idents.contains(w.as_str()))) {
+        // of an INHERENT impl block only the methods the program mentions are kept (smaller witnesses; a trait impl
+        // must stay complete)
+        let inherent = t.starts_with("impl") && !t.lines().next().unwrap_or("").contains(" for ");
+        for line in t.lines() {
+            if inherent && let Some(rest) = line.strip_prefix("    fn ") {
+                let name: String = rest.chars().take_while(|c| c.is_ascii_alphanumeric() || *c == '_').collect();
+                if !idents.contains(name.as_str()) {
+                    continue;
+                }
+            }
+            out.push_str(line);
+            out.push('\n');
+        }
+    }
+    out
 }
 
 /// where a call sits: everything needed to write the program around PREFIX(ARGS)
